@@ -163,7 +163,7 @@ def gen_switch(rng, tier):
 def gen_map(rng, tier):
     """map_ children created mid-run: several keys per cycle, start faults in the k-th child of a cycle,
     evaluate and stop faults, removals; sampled at the return of run() and at the release."""
-    variant = rng.choice([1, 2, 2, 2, 3, 4])     # 4: reduce_ with a sub-graph combiner
+    variant = rng.choice([1, 2, 2, 3, 4, 4])     # 4: reduce_ with a sub-graph combiner
     start = rng.randint(1, 2)
     ncycles = rng.randint(1, 4)
     end = start + ncycles + rng.randint(1, 3)
@@ -181,8 +181,10 @@ def gen_map(rng, tier):
                 if rng.random() < 0.3:
                     case.append([13, cy, k, rng.randint(0, 9)])
         else:
-            for k in rng.sample(range(1, 6), rng.randint(2 if cy == 0 and rng.random() < 0.8 else 0, 3)):
-                if k in live and rng.random() < 0.5:
+            # reduce_ needs >= 3 live keys for two combiner graphs: start wide, remove rarely
+            lo = (3 if variant == 4 else 2) if cy == 0 and rng.random() < 0.8 else 0
+            for k in rng.sample(range(1, 7), rng.randint(lo, 5 if variant == 4 and cy == 0 else 3)):
+                if k in live and rng.random() < (0.25 if variant == 4 else 0.5):
                     case.append([14, cy, k])
                     live.discard(k)
                 else:
